@@ -512,7 +512,7 @@ pub fn reports(prop: Prop, class: Class, kind: &str, e: &Edge) -> bool {
     if std::env::var("MC_ALL_CLASSES").is_ok() { return true; } // development aid: see every oracle's failures in this run
     match prop {
         Prop::C09 => matches!(class, Class::Vec | Class::Type | Class::Own),
-        Prop::C19 => matches!(class, Class::Vec | Class::Type | Class::Iter | Class::Cap | Class::Alloc),
+        Prop::C19 => matches!(class, Class::Vec | Class::Type | Class::Iter | Class::Cap | Class::Alloc) || (class == Class::Mem && kind == "storage-misaligned"),
         Prop::C01 | Prop::C02 | Prop::C13 => matches!(class, Class::Vec | Class::Type | Class::Iter),
         Prop::C08 => matches!(class, Class::Vec | Class::Type | Class::Cap | Class::Mem),
         Prop::C03 => class == Class::Own,
